@@ -74,6 +74,11 @@ let rest_after (line : string) (n : int) : string =
 
 let parse_fen (fen : string) : M.position option = M.fen_parse (cstr fen)
 
+let lcg = ref 0
+let rnd (n : int) : int =
+  lcg := (!lcg * 2862933555777941757 + 3037000493) land max_int;
+  ((!lcg lsr 20) land 0x3fffffff) mod (max n 1)
+
 (* ---------- ops ---------- *)
 let op_slider = function
   | [k; sq; occ] ->
@@ -189,11 +194,178 @@ let op_fen_rt (rest : string) : string =
      | None -> ostr f1 ^ " | BAD | 0"
      | Some q -> ostr f1 ^ " | " ^ ostr (M.fen_print q) ^ " | " ^ (if p = q then "1" else "0"))
 
+(* ---------- engine representation (PositionRep) ---------- *)
+let splitmix64 (x : int64) : int64 =
+  let open Int64 in
+  let x = add x 0x9e3779b97f4a7c15L in
+  let x = mul (logxor x (shift_right_logical x 30)) 0xbf58476d1ce4e5b9L in
+  let x = mul (logxor x (shift_right_logical x 27)) 0x94d049bb133111ebL in
+  logxor x (shift_right_logical x 31)
+
+let zt_memo : (int, M.n) Hashtbl.t = Hashtbl.create 1024
+let zval (i : int) : M.n =
+  match Hashtbl.find_opt zt_memo i with
+  | Some v -> v
+  | None -> let v = n_of_int64 (splitmix64 (Int64.of_int i)) in Hashtbl.add zt_memo i v; v
+let zt : M.zobrist = {
+  M.z_piece = (fun p s -> zval (int_of_n p * 64 + int_of_n s + 1));
+  M.z_castling = (fun c -> zval (1000 + int_of_n c));
+  M.z_side = zval 2000;
+  M.z_ep = (fun f -> zval (3000 + int_of_n f)) }
+
+let b01 b = if b then "1" else "0"
+let obs_rep (s : M.rep) : string =
+  let b = Buffer.create 512 in
+  let add = Buffer.add_string b in
+  add (pi s.M.r_side); add " "; add (pi s.M.r_hmc); add " "; add (string_of_int (int_of_z s.M.r_ply)); add " B";
+  List.iter (fun pc -> add " "; add (pi pc)) s.M.r_board;
+  add " L";
+  List.iteri (fun i l -> if i >= 1 then begin add " ["; add (String.concat "," (List.map pi l)); add "]" end) s.M.r_lists;
+  add " K";
+  List.iteri (fun i v -> if i >= 1 then begin add " "; add (hex_of_n v) end) s.M.r_kind_bb;
+  add " C"; List.iter (fun v -> add " "; add (hex_of_n v)) s.M.r_color_bb;
+  add " R "; add (pi s.M.r_castling);
+  add " E "; add (match s.M.r_ep with None -> "64" | Some e -> pi e);
+  let k = s.M.r_key in
+  add " Z "; add (String.concat " " (List.map hex_of_n [k.M.k_piece; k.M.k_pawn; k.M.k_ep; k.M.k_castling; k.M.k_color]));
+  let h = s.M.r_hist in
+  add " H "; add (string_of_int (List.length h));
+  let rec take n l = if n = 0 then [] else match l with [] -> [] | x :: t -> x :: take (n - 1) t in
+  List.iter (fun v -> add " "; add (hex_of_n v)) (List.rev (take 3 h));
+  add " O "; add (hex_of_n (M.get_key k)); add " "; add (hex_of_n k.M.k_pawn); add " ";
+  add (b01 (M.is_repeated s)); add (b01 (M.threefold s)); add (b01 (M.rule50 s)); add (b01 (M.enough_material s));
+  Buffer.contents b
+
+let run_rep_game (rest : string) : string =
+  let (fen, moves) = split_game rest in
+  match parse_fen fen with
+  | None -> "BAD-FEN"
+  | Some p0 ->
+    let s = ref (M.rep_of_position zt p0) in
+    let b = Buffer.create 1024 in
+    Buffer.add_string b (obs_rep !s);
+    (try List.iter (fun ms ->
+         match M.rep_parse_uci !s (cstr ms) with
+         | None -> Buffer.add_string b " ; BAD-MOVE"; raise Exit
+         | Some m -> s := fst (M.do_move zt !s m); Buffer.add_string b " ; "; Buffer.add_string b (obs_rep !s)) moves
+     with Exit -> ());
+    Buffer.contents b
+
+let op_walk (rest : string) : string =
+  let (fen, toks) = split_game rest in
+  match parse_fen fen with
+  | None -> "BAD-FEN"
+  | Some p0 ->
+    let s = ref (M.rep_of_position zt p0) in
+    let st = ref [] in
+    let b = Buffer.create 1024 in
+    Buffer.add_string b (obs_rep !s);
+    (try List.iter (fun t ->
+         (match t with
+          | "u" | "un" ->
+            (match !st with
+             | [] -> Buffer.add_string b " ; EMPTY"; raise Exit
+             | (m, mi) :: r -> st := r;
+               s := if t = "u" then M.undo_move zt !s m mi else M.undo_null_move zt !s mi)
+          | "n" -> let (s', mi) = M.do_null_move zt !s in s := s'; st := (M.N0, mi) :: !st
+          | _ ->
+            (match M.rep_parse_uci !s (cstr t) with
+             | None -> Buffer.add_string b " ; BAD-MOVE"; raise Exit
+             | Some m -> let (s', mi) = M.do_move zt !s m in s := s'; st := (m, mi) :: !st));
+         Buffer.add_string b " ; "; Buffer.add_string b (obs_rep !s)) toks
+     with Exit -> ());
+    Buffer.contents b
+
+(* ---------- C04 keys (model: incremental key of the rep, key from scratch) ---------- *)
+let fen4 (p : M.position) : string =
+  let f = ostr (M.fen_print p) in
+  let ws = String.split_on_char ' ' f in
+  match ws with a :: b :: c :: d :: _ -> String.concat " " [a; b; c; d] | _ -> f
+
+let run_key_game (rest : string) : string =
+  let (fen, moves) = split_game rest in
+  match parse_fen fen with
+  | None -> "BAD-FEN"
+  | Some p0 ->
+    let s = ref (M.rep_of_position zt p0) in
+    let b = Buffer.create 1024 in
+    let obs () =
+      let sk = M.scratch_key zt !s in
+      fen4 (M.rep_abs !s) ^ " | " ^ hex_of_n (M.get_key !s.M.r_key) ^ " " ^ hex_of_n !s.M.r_key.M.k_pawn ^ " "
+      ^ hex_of_n (M.get_key sk) ^ " " ^ hex_of_n sk.M.k_pawn in
+    Buffer.add_string b (obs ());
+    (try List.iter (fun ms ->
+         match M.rep_parse_uci !s (cstr ms) with
+         | None -> Buffer.add_string b " ; BAD-MOVE"; raise Exit
+         | Some m -> s := fst (M.do_move zt !s m); Buffer.add_string b " ; "; Buffer.add_string b (obs ())) moves
+     with Exit -> ());
+    Buffer.contents b
+
+(* ---------- C07 predicates from the rules-level history ---------- *)
+let run_preds_game (rest : string) : string =
+  let (fen, moves) = split_game rest in
+  match parse_fen fen with
+  | None -> "BAD-FEN"
+  | Some p0 ->
+    let h = ref [p0] in
+    let b = Buffer.create 256 in
+    let obs () =
+      let p = List.hd !h in
+      b01 (M.in_check p.M.brd p.M.stm) ^ b01 (M.checkmate p) ^ b01 (M.stalemate p) ^ b01 (M.occurred_before !h)
+      ^ b01 (M.occurred_three_times !h) ^ b01 (M.fifty_moves p) ^ b01 (M.insufficient_material p.M.brd) in
+    Buffer.add_string b (obs ());
+    (try List.iter (fun ms ->
+         let p = List.hd !h in
+         match M.uci_parse p (cstr ms) with
+         | None -> Buffer.add_string b " ; BAD-MOVE"; raise Exit
+         | Some m -> h := M.make_move p m :: !h; Buffer.add_string b " ; "; Buffer.add_string b (obs ())) moves
+     with Exit -> ());
+    Buffer.contents b
+
+(* walkgen <seed> <steps> <maxdepth> <fen> : a random nested make/unmake script (tokens for op walk) *)
+let op_walkgen (args : string list) (line : string) : string =
+  match args with
+  | seed :: steps :: maxd :: _ ->
+    lcg := int_of_string seed * 104729 + 3;
+    let maxd = int_of_string maxd in
+    (match parse_fen (rest_after line 4) with
+     | None -> "BAD-FEN"
+     | Some p0 ->
+       (* stack of (position, was_null) *)
+       let st = ref [] and p = ref p0 and out = ref [] in
+       let last_null = ref false in
+       for _ = 1 to int_of_string steps do
+         let depth = List.length !st in
+         let r = rnd 100 in
+         let ms = M.legal_moves !p in
+         if (r < 40 || ms = [] || depth >= maxd) && depth > 0 then begin
+           (match !st with
+            | (q, was_null) :: rest -> out := (if was_null then "un" else "u") :: !out; p := q; st := rest
+            | [] -> ());
+           last_null := false
+         end else if r < 52 && not !last_null && not (M.in_check !p.M.brd !p.M.stm) && depth < maxd then begin
+           (* null move: side flips, ep cleared, clock+1 *)
+           st := (!p, true) :: !st;
+           out := "n" :: !out;
+           p := { !p with M.stm = (match !p.M.stm with M.White -> M.Black | M.Black -> M.White); M.ep = None };
+           last_null := true
+         end else if ms <> [] && depth < maxd then begin
+           let special m =
+             (match m with M.Castle _ -> true | M.Normal (_, _, Some _) -> true | _ -> false) || M.is_capture !p m in
+           let pool = if rnd 10 < 5 then (match List.filter special ms with [] -> ms | l -> l) else ms in
+           let m = List.nth pool (rnd (List.length pool)) in
+           st := (!p, false) :: !st;
+           out := uci_of !p m :: !out;
+           p := M.make_move !p m;
+           last_null := false
+         end
+       done;
+       (* unwind *)
+       List.iter (fun (_, was_null) -> out := (if was_null then "un" else "u") :: !out) !st;
+       String.concat " " (List.rev !out))
+  | _ -> "BAD-ARGS"
+
 (* ---------- model-driven random games ---------- *)
-let lcg = ref 0
-let rnd (n : int) : int =
-  lcg := (!lcg * 2862933555777941757 + 3037000493) land max_int;
-  ((!lcg lsr 20) land 0x3fffffff) mod (max n 1)
 
 (* playout <seed> <plies> <bias> <fen> : random legal game; bias (0..9) favours special moves *)
 let op_playout (args : string list) (line : string) : string =
@@ -209,6 +381,8 @@ let op_playout (args : string list) (line : string) : string =
           for _ = 1 to int_of_string plies do
             let ms = M.legal_moves !p in
             if ms = [] then raise Exit;
+            (* FIDE 9.6.2: after 75 moves without capture or pawn move the game is over *)
+            if int_of_z !p.M.clock >= 150 then raise Exit;
             let special m =
               (match m with M.Castle _ -> true | M.Normal (_, _, Some _) -> true | _ -> false)
               || M.is_capture !p m
@@ -242,6 +416,11 @@ let dispatch (line : string) : string =
      | "g_uci" -> run_game (rest_after line 1) obs_uci
      | "fen_rt" -> op_fen_rt (rest_after line 1)
      | "playout" -> op_playout args line
+     | "g_rep" -> run_rep_game (rest_after line 1)
+     | "walk" -> op_walk (rest_after line 1)
+     | "g_key" -> run_key_game (rest_after line 1)
+     | "g_preds" -> run_preds_game (rest_after line 1)
+     | "walkgen" -> op_walkgen args line
      | _ -> "UNKNOWN-OP " ^ op)
 
 let () =
